@@ -277,6 +277,10 @@ type OpSeqSpec struct {
 	Alphabet      []string
 	DepthQuick    int
 	DepthThorough int
+	// histories up to this length are always extended, whether or not their canonical state
+	// was seen before (a wrong implementation may give equal-looking states different futures)
+	NoDedupQuick    int
+	NoDedupThorough int
 	// Run executes hist (indices into Alphabet) on a fresh system. It returns the canonical key
 	// of the state reached ("" = the last operation is not applicable here: do not count, do
 	// not extend) and reports violated oracle clauses through fail.
@@ -300,6 +304,10 @@ func OpSeq(c *Ctx, s OpSeqSpec) *Result {
 	}
 	r.Bound = depth
 	r.Model = "bfs-over-histories"
+	nodedup := s.NoDedupQuick
+	if c.Thorough {
+		nodedup = s.NoDedupThorough
+	}
 	if c.Replay != nil {
 		hist := c.Replay
 		var fails []string
@@ -351,7 +359,7 @@ func OpSeq(c *Ctx, s OpSeqSpec) *Result {
 				if failed {
 					continue // do not extend beyond a violating state
 				}
-				if !seen[key] {
+				if !seen[key] || d <= nodedup {
 					seen[key] = true
 					next = append(next, hist)
 					if len(r.Samples) < 3 && d == depth {
